@@ -153,6 +153,48 @@ fn key_name(k: u8) -> String {
     }
 }
 
+struct ExitProbe {
+    cache: usize,
+    id: String,
+    out: Arc<Mutex<Option<Vec<usize>>>>,
+}
+impl Drop for ExitProbe {
+    fn drop(&mut self) {
+        // the spawning thread joins this one before the cache can go away
+        let cache = unsafe { &*(self.cache as *const AssetCache<MemSource>) };
+        let id = self.id.clone();
+        let r = std::panic::catch_unwind(std::panic::AssertUnwindSafe(|| {
+            let a = cache.load::<L1>(&id).ok().map_or(0, |h| h as *const Handle<L1> as usize);
+            let b = cache.get_cached::<L1>(&id).map_or(0, |h| h as *const Handle<L1> as usize);
+            let c = cache.as_any_cache().get_cached::<L1>(&id).map_or(0, |h| h as *const Handle<L1> as usize);
+            vec![a, b, c]
+        }));
+        *self.out.lock().unwrap_or_else(|e| e.into_inner()) = r.ok();
+    }
+}
+thread_local! {
+    static EXIT_PROBE: std::cell::RefCell<Option<ExitProbe>> = const { std::cell::RefCell::new(None) };
+}
+
+/// Handles returned to look-ups made while the calling thread's thread-locals are being destroyed.
+fn lookups_from_thread_local_destructor(cache: &AssetCache<MemSource>, id: &str, probe_first: bool) -> Option<Vec<usize>> {
+    let out = Arc::new(Mutex::new(None));
+    let (addr, id, out2) = (cache as *const AssetCache<MemSource> as usize, id.to_string(), out.clone());
+    let t = std::thread::spawn(move || {
+        let cache = unsafe { &*(addr as *const AssetCache<MemSource>) };
+        if probe_first {
+            EXIT_PROBE.with(|p| p.borrow().is_none());
+        }
+        let _ = cache.get_cached::<L1>(&id).is_some();
+        let _ = cache.load::<L1>(&id).is_ok();
+        EXIT_PROBE.with(|p| *p.borrow_mut() = Some(ExitProbe { cache: addr, id, out: out2 }));
+    });
+    // join returns when the thread is gone, destructors of its thread-locals included
+    let _ = t.join();
+    let r = out.lock().unwrap_or_else(|e| e.into_inner()).clone();
+    r
+}
+
 fn run_op(cache: &AssetCache<MemSource>, op: Op, ticket: &AtomicU64, thread: usize, idx: usize) -> Rec {
     let id = key_name(op.key);
     let start = ticket.fetch_add(1, SeqCst);
@@ -531,6 +573,27 @@ fn run_shared(c: &Case, out: &mut Outcome) {
             return;
         }
     }
+    // "from any thread" includes a thread that is going away: look-ups made by the destructor of a thread-local
+    // (registered before or after the thread's first use of the cache) return the entry's handle too
+    if c.hot {
+        if let Some((st, k)) = after.iter().find(|((st, _), v)| !*st && v.is_some()).map(|(k, _)| *k) {
+            let _ = st;
+            let id = key_name(k);
+            let want = after[&(false, k)].as_ref().map(|c| c.0).unwrap_or(0);
+            for probe_first in [true, false] {
+                let got = lookups_from_thread_local_destructor(&cache, &id, probe_first);
+                let ok = matches!(&got, Some(v) if v.len() == 3 && v.iter().all(|p| *p == want));
+                if !ok {
+                    out.fail(
+                        "exiting-thread-lookup",
+                        format!("key {id:?} is cached (handle {want:#x}); load / get_cached / get_or_insert made by the destructor of a thread-local of an exiting thread (thread-local first used {} the thread's first cache call) gave {got:?} (None = the look-ups panicked)", if probe_first { "before" } else { "after" }),
+                    );
+                    return;
+                }
+            }
+            out.label("lookups-from-exiting-thread");
+        }
+    }
     if crate::calloc::error_count() != 0 {
         out.fail("allocator", crate::calloc::describe_errors());
     }
@@ -617,7 +680,7 @@ impl Prop for C01 {
          concurrently and afterwards; shard count via CPU affinity 1/2/3/4/5/6/7/12/16 at construction; with or without a reloader; keys include a 44-byte id and ids with empty components or a '/' (k0., .k0, k0..k1, k0/k1), each with its own file; in a third of the cases 50..600 ids that were never cached are removed (twice) after the racing phase (nothing may vanish); \
          in a quarter of the cases every value that loses a race panics in its destructor (the unwinding call is the loser's own, every other call must be unaffected); a single-threaded LocalAssetCache variant). \
          Oracle over the joined logs: one pointer and one value per key, presence monotone along a ticket-based happens-before order, ledger: exactly the winner alive and every loser dropped once, \
-         retained handles still identical and readable after growth. non-trivial = >= 2 loaders provably inside the miss window of one key, or >= 1 value that lost an insertion race, or (local variant) >= 1000 growth insertions; distinct = different canonical JSON"
+         retained handles still identical and readable after growth; look-ups made by the destructor of a thread-local of an exiting thread return the same handle. non-trivial = >= 2 loaders provably inside the miss window of one key, or >= 1 value that lost an insertion race, or (local variant) >= 1000 growth insertions; distinct = different canonical JSON"
             .into()
     }
 
